@@ -102,6 +102,55 @@ def check_records(recs, vals, by_line, findings, label):
     return n_opt
 
 
+SKIP_T = ("NEWLINE", "NL_CONT_", "COMMENT", "COMMENT_CPP", "COMMENT_MULTI", "COMMENT_EMBED", "COMMENT_START", "COMMENT_END", "COMMENT_WHOLE", "COMMENT_ENDIF",
+          "VBRACE_OPEN", "VBRACE_CLOSE", "IGNORED", "JUNK", "PP_IGNORE")
+
+
+def check_output_gaps(sp, fin, recs, findings):
+    """the blanks actually WRITTEN between the two chunks of a decided pair (hook H1: the characters emitted per chunk) against the
+    decision space_text() took for it: force = exactly max(1, min) blanks, remove = none, add = at least one.  Decisions are
+    taken before the output stage, which is free to recompute a column (it does for backslash-newlines)."""
+    by_pos = {}
+    for i, c in enumerate(fin):
+        by_pos[(c["orig_line"], c["orig_col"], c["type"])] = i
+    lead = {}
+    for rec in recs:
+        n = 0
+        for cp in rec["chars"]:
+            if cp in (32, 9):
+                n += 1
+            else:
+                break
+        lead[rec["begin"]] = (n, len(rec["chars"]), rec["pre"])
+    n_checked = 0
+    for rec in sp:
+        cont = rec["t2"] == "NL_CONT"         # a backslash-newline is a chunk with a line break of its own
+        if rec["av"] == 0 or (rec["nl_count"] and not cont) or rec["next_comment"] or rec["t1"] in SKIP_T or rec["t2"] in SKIP_T \
+                or rec["t1"].startswith("COMMENT") or rec["t2"].startswith("COMMENT"):     # comments are placed by the comment rules (columns, alignment)
+            continue
+        i = by_pos.get((rec["l2"], rec["c2"], rec["t2"]))
+        if i is None or i == 0 or i not in lead:
+            continue
+        a = fin[i - 1]
+        if (a["orig_line"], a["orig_col"], a["type"]) != (rec["l1"], rec["c1"], rec["t1"]) or a["type"] in SKIP_T or (i - 1) not in lead:
+            continue
+        if fin[i]["flags"] & dumps.PCF_WAS_ALIGNED or ((fin[i].get("nl_count") or 0) and not cont):
+            continue
+        n, total, pre = lead[i]
+        if pre[3]:              # did_newline: the chunk starts an output line, its column is the indenter's
+            continue
+        n_checked += 1
+        want = max(1, rec["min_sp"])
+        bad = (rec["av"] == 3 and n != want) or (rec["av"] == 2 and n != 0) or (rec["av"] == 1 and n < 1)
+        if bad:
+            # a literal with raw tabs is wider on the page than the length space_text() reckons with: recorded cause of its own
+            cause = "literal-tab" if 9 in rec["text1"] else rec["rule"] if " from " in rec["rule"] else rec["rule"].split(" ")[0]
+            findings.append(("written-gap|%s|%s" % (cause, NAMES[rec["av"]]),
+                             "pair '%s' '%s' (%d:%d), rule %s, decision %s: %d blank(s) written between them"
+                             % ("".join(map(chr, rec["text1"]))[:20], "".join(map(chr, rec["text2"]))[:20], rec["l1"], rec["c1"], rec["rule"], NAMES[rec["av"]], n)))
+    return n_checked
+
+
 def run(rep, build, tier, seed):
     r = common.rng(seed, "C19")
     ps = common.proof_status("C19", build)
@@ -127,6 +176,10 @@ def run(rep, build, tier, seed):
             files.append((lang or common.lang_of_path(inp), inp))
     nfiles = 40 if tier == "quick" else len(files)
     pick = r.sample(files, min(nfiles, len(files)))
+    # fixed inputs for pairs the corpus slice of a quick run may not contain (backslash-newlines behind 0, 1, 2, 5 blanks and a tab ...)
+    sdir = os.path.join(common.ROOT, "corpus", "c19")
+    for fn in sorted(os.listdir(sdir)) if os.path.isdir(sdir) else []:
+        pick.append(("CPP" if fn.endswith(".cpp") else "C", os.path.join(sdir, fn)))
     cfgs = []
     for name in NAMES:
         cfgs.append(("all-" + name, "".join("%s=%s\n" % (o, name) for o in opts)))
@@ -144,15 +197,20 @@ def run(rep, build, tier, seed):
         open(cfgp, "w").write(ct + QT_OFF)
         rc_, out, err, prefix = dumps.run_with_dumps(["-q", "-c", cfgp, "-l", lang, "-f", inp], tl.wd, timeout=60)
         recs = dumps.parse_sp(prefix + ".0.sp") if rc_ == 0 else []
-        return job, rc_, recs
-    pairs = 0
+        wf, wn = [], 0
+        if rc_ == 0 and os.path.exists(prefix + ".0.fin") and os.path.exists(prefix + ".0.out"):
+            _, _, fin = dumps.parse_chunks(prefix + ".0.fin")
+            wn = check_output_gaps(recs, fin, dumps.parse_out(prefix + ".0.out"), wf)
+        return job, rc_, recs, wf, wn
+    pairs = written = 0
     vals_cache = {}
     with ThreadPoolExecutor(max_workers=8) as ex:
-        for job, rc_, recs in ex.map(work, jobs):
+        for job, rc_, recs, wf, wn in ex.map(work, jobs):
             lang, inp, cn, ct = job
             if cn not in vals_cache:
                 vals_cache[cn] = dict(l.split("=") for l in ct.strip().split("\n"))
-            findings = []
+            findings = list(wf)
+            written += wn
             n_opt = check_records(recs, vals_cache[cn], by_line, findings, cn) if by_line else 0
             pairs += len(recs)
             rep.count(key=(inp, cn), nontrivial=n_opt > 0)
@@ -164,6 +222,7 @@ def run(rep, build, tier, seed):
     import shutil
     shutil.rmtree(base, ignore_errors=True)
     rep.cov["pairs_checked"] = pairs
+    rep.cov["written_gaps_checked"] = written
     rep.cov["generated"] = {k: v for k, v in ginfo.get("SpaceRules.v", {}).items() if k != "changed"}
     rep.sample({"sites": rep.cov["generated"].get("sites"), "shapes": rep.cov["generated"].get("shapes"), "configs": [c[0] for c in cfgs]})
     # ---- failing-input search when the site table is no longer faithful: aim at the offending sites
@@ -235,6 +294,8 @@ def replay(rp, build):
         vals = dict(l.split("=") for l in rp["cfg"].strip().split("\n"))
         f = []
         check_records(recs, vals, by_line, f, "replay")
+        if os.path.exists(prefix + ".0.fin") and os.path.exists(prefix + ".0.out"):
+            check_output_gaps(recs, dumps.parse_chunks(prefix + ".0.fin")[2], dumps.parse_out(prefix + ".0.out"), f)
         for k, w in f[:10]:
             print("VIOLATION reproduced:", w)
         if not f:
